@@ -10,11 +10,15 @@ CONSTANTS
   MaxUpdate = 1
   ClearOnSet = TRUE
   ClearOnDelete = TRUE
+  BareKeyShortcut = FALSE
   Accepts <- MCAccepts
   JsonT <- TJson
   TextXmlT <- TTXml
   AppXmlT <- TAXml
+  SufJson <- MCSufJson
+  SufXml <- MCSufXml
   MemoiseOffered = TRUE
+  ExactLookup = FALSE
   Depth = 3
 CONSTRAINT Bound
 VIEW View
